@@ -332,9 +332,13 @@ def default_arm(ctx, cat):
     classes = cat['classes']
     jobs, meta = [], []
     for it in cat['items']:
-        if it['kind'] != 'fn' or 'block' in it['flags'] or 'pcjr' in it['flags']:
+        if 'block' in it['flags'] or 'pcjr' in it['flags']:
             continue
         nom = [cat['nominal'][k] + 1 for k in it['slots']]
+        if it['kind'] == 'stmt':
+            # statements: nominal arguments only, through execute()
+            jobs.append(('exec', fill(it, nom, classes))); meta.append((it, nom, 'execute'))
+            continue
         tups = [nom]
         if ctx.rng.random() < 0.5 or not ctx.quick():
             tups.append([ctx.rng.randint(1, len(classes[k])) for k in it['slots']])
@@ -342,7 +346,7 @@ def default_arm(ctx, cat):
             txt = fill(it, tup, classes)
             jobs.append(('eval', txt)); meta.append((it, tup, 'evaluate'))
             if not ctx.quick() or tup is nom:
-                jobs.append(('exec', 'Z$=STR$(LEN(MKS$(0)))+"":PRINT ' + txt + ';')); meta.append((it, tup, 'execute'))
+                jobs.append(('exec', 'PRINT ' + txt + ';')); meta.append((it, tup, 'execute'))
     scratch = os.path.join(ctx.tmp, 'default_cwd')
     os.makedirs(scratch, exist_ok=True)
     jf, rf, sf = ctx.path('default_jobs.json'), ctx.path('default_res.json'), ctx.path('default_child.py')
